@@ -14,7 +14,7 @@ package pruner
 //@   ensures result1 == nil ==> l1HeadRead == result0.BlockNumber
 //@ extern func github.com/NethermindEth/juno/core.GetChainHeight
 //@   assigns heightRead
-//@   ensures result1 == nil ==> heightRead == result0
+//@   ensures result1 == nil ==> heightRead == result0 && result0 < 1<<62
 //@ extern func errors.Is
 
 // typed-bucket plumbing: key construction is pure, the range delete writes only to the store
@@ -137,12 +137,12 @@ package pruner
 //@   props C09 C05 C16
 //@   arith int
 //@   nosafe
-//@   requires latest < 1<<62 && floor <= latest + 1
+//@   requires a_block_height: latest < 1<<62
 //@   modifies *
 //@   loop 1: invariant window: rangeStartAligned % 8192 == 0 && lastStoredFilterRangeEnd == rangeStartAligned + 8191 && rangeStartAligned <= latest
-//@   callsite NewRunningEventFilterHot@*: resumes_no_later_than_the_block_after_the_head: nextBlock <= latest + 1
-//@   callsite NewAggregatedFilter@*: window_of_the_next_block: fromBlock <= latest + 1
-//@   callsite fillRunningEventFilter@*: fills_up_to_the_head: $2 <= latest + 1 && $3 == latest
+//@   callsite NewRunningEventFilterHot@*: resumes_no_later_than_the_block_after_the_head: nextBlock <= latest + 1 || nextBlock == floor
+//@   callsite NewAggregatedFilter@*: window_of_the_next_block: fromBlock <= latest + 1 || fromBlock == floor - floor % 8192
+//@   callsite fillRunningEventFilter@*: fills_up_to_the_head: ($2 <= latest + 1 || $2 == floor) && $3 == latest
 //@ func InitializeRunningEventFilter
 //@   props C16, C09
 //@   arith int
